@@ -5,6 +5,8 @@
 package main
 
 import (
+	"verifharness/core"
+
 	"crypto/sha256"
 	"encoding/hex"
 	"encoding/json"
@@ -50,33 +52,6 @@ func main() {
 	}
 }
 
-// Stream returns n deterministic bytes of stream `which` for the seed, starting
-// at offset off. Printable ASCII with newlines (mode "text") or all byte values.
-func Stream(seed uint64, which byte, off, n int, binary bool) []byte {
-	out := make([]byte, n)
-	for i := 0; i < n; i++ {
-		pos := uint64(off + i)
-		x := (seed*0x9E3779B97F4A7C15 + uint64(which)*0xBF58476D1CE4E5B9) ^ (pos * 0x94D049BB133111EB)
-		x ^= x >> 31
-		x *= 0xD6E8FEB86659FD93
-		x ^= x >> 29
-		if binary {
-			out[i] = byte(x)
-		} else {
-			v := byte(x % 97)
-			switch {
-			case v < 95:
-				out[i] = 32 + v
-			case v == 95:
-				out[i] = '\n'
-			default:
-				out[i] = '\t'
-			}
-		}
-	}
-	return out
-}
-
 // emit --seed S [--binary] --plan o:10,e:70000,co,e:5 [--exit K | --kill SIG]
 func emit(args []string) {
 	var seed uint64
@@ -114,11 +89,11 @@ func emit(args []string) {
 			os.Stderr.Close()
 		case strings.HasPrefix(step, "o:"):
 			n, _ := strconv.Atoi(step[2:])
-			writeAll(os.Stdout, Stream(seed, 'o', offO, n, binary))
+			writeAll(os.Stdout, core.Stream(seed, 'o', offO, n, binary))
 			offO += n
 		case strings.HasPrefix(step, "e:"):
 			n, _ := strconv.Atoi(step[2:])
-			writeAll(os.Stderr, Stream(seed, 'e', offE, n, binary))
+			writeAll(os.Stderr, core.Stream(seed, 'e', offE, n, binary))
 			offE += n
 		case strings.HasPrefix(step, "s:"):
 			ms, _ := strconv.Atoi(step[2:])
@@ -126,10 +101,18 @@ func emit(args []string) {
 		}
 	}
 	if kill != 0 {
-		syscall.Kill(os.Getpid(), syscall.Signal(kill))
-		time.Sleep(5 * time.Second)
+		dieBySignal(kill)
 	}
 	os.Exit(exit)
+}
+
+// dieBySignal replaces this process by a shell that kills itself: the Go
+// runtime would answer several signals with a traceback on stderr or ignore
+// them, which would spoil the planned output.
+func dieBySignal(sig int) {
+	os.Stdout.Sync()
+	syscall.Exec("/bin/sh", []string{"sh", "-c", fmt.Sprintf("kill -%d $$; sleep 5", sig)}, os.Environ())
+	syscall.Kill(os.Getpid(), syscall.SIGKILL)
 }
 
 func writeAll(f *os.File, b []byte) {
@@ -218,8 +201,7 @@ func inspect(args []string) {
 	}
 	appendLog(log, map[string]any{"id": id, "phase": "end", "cwd": cwd, "files": snapshot("."), "exit": exit, "kill": kill})
 	if kill != 0 {
-		syscall.Kill(os.Getpid(), syscall.Signal(kill))
-		time.Sleep(5 * time.Second)
+		dieBySignal(kill)
 	}
 	os.Exit(exit)
 }
